@@ -30,8 +30,8 @@ def run(pid, tier, seed):
         n = 14 if q else 24
         consts = {"Keys": tla_set(range(1, n + 1)), "Depth": n, "Owning": "TRUE" if kind == "owning" else "FALSE", "Record": "TRUE"}
         return vlib.generate_and_replay("RBTreeMC", "%s-sim-%s" % (pid, kind), consts, exe, exe_args=("replay", kind),
-                                        invariants=["Valid"], workers=2, timeout=2400, heap="4g",
-                                        simulate=1500 if q else 20000, depth=n + 1, seed=seed)
+                                        invariants=["Valid"], workers=2, timeout=3000, heap="4g",
+                                        simulate=1500 if q else 5000, depth=n + 1, seed=seed)
 
     def exhaustive(kind):
         # no histories: states merge, so all insertion orders over more keys are covered
